@@ -369,7 +369,13 @@ fn run_roundtrip(t: &Ty) -> Outcome {
         for (how, ty) in &variants {
             let widened = ty.clone() | Type::from_str("struct{zz_w: int}").expect("harness type");
             let again = widened.clone() | Type::from_str("[struct{zz_v: float}]").expect("harness type");
-            for (step, w) in [("once", &widened), ("twice", &again)] {
+            // unions united with unions that share members with them (by `|` and by `|=`): the result
+            // is the set of members, whatever route built it
+            let self_united = ty.clone() | ty.clone();
+            let overlap_united = widened.clone() | again.clone();
+            let mut overlap_assigned = again.clone();
+            overlap_assigned |= widened.clone();
+            for (step, w) in [("once", &widened), ("twice", &again), ("by uniting it with itself", &self_united), ("and united with a union sharing members with it", &overlap_united), ("and `|=`-united with a union sharing members with it", &overlap_assigned)] {
                 let txt = w.to_string();
                 match Type::from_str(&txt) {
                     Err(_) => direct.push(("unparsable".into(), format!("{how} type, printed and then widened {step}, prints as `{txt}` which does not parse"))),
@@ -839,7 +845,8 @@ pub fn worker(input: &Value) -> Value {
     let plan = plan(property, tier, seed);
     let mut subjects_out = Vec::new();
     let mut violations = Vec::new();
-    let harness_errors: Vec<Value> = Vec::new();
+    let mut harness_errors: Vec<Value> = Vec::new();
+    let mut abandoned = 0;
     let mut runs = 0u64;
     let mut events = 0u64;
     let mut prefix_runs = 0u64;
@@ -862,11 +869,26 @@ pub fn worker(input: &Value) -> Value {
         }
         let prefixes: Vec<Vec<String>> = (0..plan.k).map(|k| prefix_for(&plan, seed, idx, k)).collect();
         let mut outcomes: Vec<(u64, Outcome)> = Vec::new();
+        if abandoned >= 2 {
+            harness_errors.push(json!({"what": "worker stopped after two abandoned runs", "subjects_done": subjects_out.len()}));
+            break;
+        }
+        let mut broken = false;
         for k in 0..plan.k {
             let ks = key_seed(seed, idx, k);
             let o = run_scenario(subject, ks, &prefixes[k]);
             runs += 1;
             events += o.events;
+            if o.canon == "PANIC@harness" {
+                // the run's thread could not be started, died, or was abandoned by the watchdog:
+                // nothing is known about the subject - never a difference between seeds
+                harness_errors.push(json!({"what": format!("{:.300}", o.raw), "subject": subject.id(), "key_seed": ks}));
+                if o.raw.contains(crate::run::WATCHDOG) {
+                    abandoned += 1;
+                }
+                broken = true;
+                break;
+            }
             if stop_at == Some((idx, k, false)) {
                 return json!({"canon": o.canon, "raw": o.raw, "stopped_at": [idx, k, false]});
             }
@@ -879,6 +901,14 @@ pub fn worker(input: &Value) -> Value {
                 runs += 1;
                 if stop_at == Some((idx, k, true)) {
                     return json!({"canon": again.canon, "raw": again.raw, "stopped_at": [idx, k, true]});
+                }
+                if again.canon == "PANIC@harness" {
+                    harness_errors.push(json!({"what": format!("{:.300}", again.raw), "subject": subject.id(), "key_seed": ks}));
+                    if again.raw.contains(crate::run::WATCHDOG) {
+                        abandoned += 1;
+                    }
+                    broken = true;
+                    break;
                 }
                 if again.raw != o.raw || again.canon != o.canon {
                     // the simulator is deterministic (selftest), so this is the code under test
@@ -897,6 +927,9 @@ pub fn worker(input: &Value) -> Value {
                 trace.push(json!([format!("{idx}/{k}"), format!("{:016x}", digest(&format!("{}#{}", o.raw, o.canon))), scenario_json(boot_seed, subject, ks, &prefixes[k])]));
             }
             outcomes.push((ks, o));
+        }
+        if broken {
+            continue;
         }
         // direct violations (visible in one run)
         for (k, (ks, o)) in outcomes.iter().enumerate() {
